@@ -1,10 +1,10 @@
 package main
 
 import (
-	"math"
 	"bufio"
 	"fmt"
 	"io"
+	"math"
 	"net"
 	"runtime"
 	"sort"
@@ -36,6 +36,16 @@ func genC16(tier string, seed uint64, emit func(string)) {
 			sizes = []int{3, 40, 500, 3000, 8000}
 		}
 		for _, size := range sizes {
+			ms := 250
+			if tier == "thorough" {
+				ms = 1500
+			}
+			emit(fmt.Sprintf("snap %s %d %d %d %d", kind, size, 2+r.Intn(2), ms, r.U64()%1000000))
+		}
+	}
+	// one MGET / HMGET over 40..300 keys against one MSET / HMSET that raises them all: every reply shows one generation
+	for _, kind := range []string{"mget", "hmget"} {
+		for _, size := range []int{40, 130, 300} {
 			ms := 250
 			if tier == "thorough" {
 				ms = 1500
@@ -251,6 +261,9 @@ type verifServer interface {
 // of the command).  The recorded history handed to the checker is empty: the verdict is the oracle's.
 func runSnap(toks []string) Result {
 	kind := toks[1]
+	if kind == "mget" || kind == "hmget" {
+		return runMGetSnap(toks)
+	}
 	size, _ := strconv.Atoi(toks[2])
 	readers, _ := strconv.Atoi(toks[3])
 	ms, _ := strconv.Atoi(toks[4])
